@@ -261,8 +261,30 @@ func VH05b_raw() {
 	verif.Assert(verif.BytesEq(m.Header[4:], hdr), lab+"/raw-header-is-pipeid-then-routing-header")
 	verif.Assert(verif.BytesEq(m.Body, body), lab+"/raw-body-unchanged")
 	// answer: either with the header as received, or redirected to an unknown pipe id
-	reply := mangos.NewMessage(2)
-	reply.Header = append(reply.Header, m.Header...)
+	// the reply is a fresh message, the request's own message object, or a message object the application received
+	// earlier from the OTHER connection and now re-uses (it owns it): the route is what the header says, whatever
+	// the object remembers about where it once came from
+	var reply *mangos.Message
+	switch verif.Choice("reply-object", 3) {
+	case 0:
+		reply = mangos.NewMessage(2)
+		reply.Header = append(reply.Header, m.Header...)
+	case 1:
+		reply = m
+		reply.Body = reply.Body[:0]
+	case 2:
+		pipes[1-src].Deliver([]byte{0x80, 0, 0, 9, 'o'})
+		verif.Quiesce()
+		m2, e2 := sock.RecvMsg()
+		verif.Assert(e2 == nil, lab+"/recv-from-the-other-connection")
+		if e2 != nil {
+			return
+		}
+		reply = m2
+		reply.Header = append(reply.Header[:0], m.Header...)
+		reply.Body = reply.Body[:0]
+		verif.Reach("reply-on-a-reused-message-object")
+	}
 	reply.Body = append(reply.Body, 'R')
 	gone := verif.Choice("gone", 2) == 1
 	var newcomers []*vt.Pipe
